@@ -396,5 +396,20 @@ def run(ctx):
         subs = [e for p in paths for e in p.events if e.kind == "SUB"]
         ctx.ob("C12.R5", fi, all(e["m"] in PROTO_SUB and e.a.get("ctx") == CTX and e.a.get("path") == PATH for e in subs),
                "%s._decode consults the wrapped construct only within the running parse (same context and path), so it cannot fail where the bare construct succeeds" % cls, key="%s no re-entry" % cls)
-    ctx.floor("C12.R5", 9)
+    # the display classes are built from the value unchanged: `new(value, ...)` constructs DisplayClass(value) on every path, and
+    # Hex/HexDump hand `new` the parsed object itself as that value
+    for dcls in ("HexDisplayedInteger", "HexDisplayedBytes", "HexDisplayedDict", "HexDumpDisplayedBytes", "HexDumpDisplayedDict"):
+        if dcls not in M.classes or "new" not in M.cls(dcls).methods:
+            continue
+        fn = M.method(dcls, "new")
+        first = fn.node.args.args[0].arg if fn.node.args.args else None
+        ps = paths_of(ctx, fn, dcls)
+        news = [e for p in ps for e in p.events if e.kind == "NEW" and e["cls"] == dcls]
+        ok = bool(news) and all(tuple(e["args"]) == (("param", first),) for e in news) and all(p.retval is not None and p.retval[0] == "new" and p.retval[1] == dcls for p in ps if p.returns)
+        ctx.ob("C12.R5", fn, ok, "%s.new wraps its first argument unchanged (no arithmetic on the value: the wrapper is display-only)" % dcls, key="%s value unchanged" % dcls)
+    for cls in ("Hex", "HexDump"):
+        fi, paths = own_method_paths(ctx, cls, "_decode")
+        calls = [e for p in paths for e in p.events if (e.kind == "CALL" and e["func"][0] == "attr" and e["func"][2] == "new") or (e.kind == "NEW" and str(e["cls"]).startswith("Hex"))]
+        ctx.ob("C12.R5", fi, bool(calls) and all(tuple(e["args"])[:1] == (OBJ,) for e in calls), "%s._decode hands the display class the parsed object itself" % cls, key="%s passes obj" % cls)
+    ctx.floor("C12.R5", 9 + 3)
     ctx.control("C12.R2", expr_term(ast.parse("Select(Pass, subcon)", mode="eval").body, {"subcon"}) != ("ctor", "Select", (("param", "subcon"), ("free", "Pass")), ()))
